@@ -4,9 +4,10 @@ Model of rich/pretty.py: `Node` (iter_tokens, check_length, __str__, render), `_
 (expandable, check_length, expand, __str__), `traverse` (over a heap of objects with identities),
 `pretty_repr`.  Core Lean only (imports Model/Cells for `cellLen`), so the driver links natively.
 
-Every definition mirrors the Python statement by statement; quirks are kept.  Two places where the
-code as it stands is defective are selected by *variant flags* (`Variant`): `true` = today's code,
-`false` = the minimally repaired code (see Props/C16.lean for the theorems and the witnesses).
+Every definition mirrors the Python statement by statement; quirks are kept.  Two places where
+rich 9.10.0 as found was defective are selected by *variant flags* (`Variant`): `true` = rich 9.10.0 as found,
+`false` = the minimally repaired code, which /repo contains now (`fix:` commits 376cec1, e5d1b9a; see Props/C16.lean
+for the theorems and the witnesses).
 
 What is NOT modelled but enters as a parameter (runtime facts):
 * `repr()` of leaves: an atom is an opaque token string; for `str`/`bytes` leaves the characters are
@@ -19,14 +20,14 @@ open RichModel
 abbrev Str := List Char
 
 /-- Which variant of the code is modelled.  `dropSuffix = true`: `_Line.expand` computes the suffix of
-the closing line from the node (today, F24); `false`: it carries the expanded line's own suffix.
+the closing line from the node (as found, F24; before fix 376cec1); `false`: it carries the expanded line's own suffix.
 `arrayLiteral = true`: the empty form of `array` is the literal text `array({_object.typecode!r})`
-(today, F12: missing f-string); `false`: `array('<typecode>')`. -/
+(as found, F12: missing f-string; before fix e5d1b9a); `false`: `array('<typecode>')`. -/
 structure Variant where
   dropSuffix : Bool
   arrayLiteral : Bool
 
-/-- The code as it stands in the working tree / the repaired code. -/
+/-- rich 9.10.0 as found (the name `today` dates from before the `fix:` commits) / the repaired code, which /repo contains now. -/
 def Variant.today : Variant := ⟨true, true⟩
 def Variant.repaired : Variant := ⟨false, false⟩
 
@@ -149,7 +150,7 @@ def expandKids (l : Line) (n : Node) (indentSize : Nat) : List Line :=
       whitespace := l.whitespace ++ List.replicate indentSize ' ',
       suffix := if n.tupleOfOne then [','] else child.separator }
 
-/-- last line yielded by `expand`: the closing brace.  Today's code (`dropSuffix`) derives the
+/-- last line yielded by `expand`: the closing brace.  rich 9.10.0 as found (`dropSuffix`, before fix 376cec1) derives the
 suffix from the node; the repaired code carries the suffix of the line being expanded. -/
 def expandClose (v : Variant) (l : Line) (n : Node) : Line :=
   { text := n.closeBrace, whitespace := l.whitespace,
